@@ -52,6 +52,26 @@ class Extractor:
         return self.rules
 
     # ---- function bodies
+    def input_arg(self, fn, a):
+        """`input` | `input.trim_start()` | `input.trim_end()` | `input.trim()` -> (skip leading ws?, drop trailing ws?) or None"""
+        if A.path_str(a) == "input":
+            return (False, False)
+        if A.kind(a) == "Expr::MethodCall" and not a["args"] and A.path_str(a["receiver"]) == "input":
+            m = a["method"]["sym"]
+            if m == "trim_start":
+                return (True, False)
+            if m == "trim_end":
+                return (False, True)
+            if m == "trim":
+                return (True, True)
+        return None
+
+    def wrap(self, p, how):
+        if how == (False, False):
+            return p
+        ws = N("star", p=N("cls", pred=("ws",)), collect=False)
+        return N("wrap", pre=[ws] if how[0] else [], p=p, trim_end=how[1])
+
     def fn_body(self, fn):
         stmts = fn.block["stmts"]
         if fn.name == "format_string":
@@ -59,8 +79,8 @@ class Extractor:
         if len(stmts) == 1 and A.kind(stmts[0]) == "Stmt::Expr":
             e = stmts[0]["0"]
             # COMB(..)(input)
-            if A.kind(e) == "Expr::Call" and len(e["args"]) == 1 and A.path_str(e["args"][0]) == "input":
-                return self.parser(fn, e["func"])
+            if A.kind(e) == "Expr::Call" and len(e["args"]) == 1 and self.input_arg(fn, e["args"][0]) is not None:
+                return self.wrap(self.parser(fn, e["func"]), self.input_arg(fn, e["args"][0]))
             self.lost(fn.name, "tail expression is not `<parser>(input)`")
         # let-sequence
         steps = []
@@ -74,9 +94,13 @@ class Extractor:
                 if A.kind(init) == "Expr::Try":
                     req = True
                     init = init["expr"]
-                if not (A.kind(init) == "Expr::Call" and len(init["args"]) == 1 and A.path_str(init["args"][0]) == "input"):
+                if names == ["input"] and not req and self.input_arg(fn, init) not in (None, (False, False)):
+                    # `let input = input.trim_start();`
+                    steps.append((None, self.wrap(N("seq", items=[]), self.input_arg(fn, init)), False))
+                    continue
+                if not (A.kind(init) == "Expr::Call" and len(init["args"]) == 1 and self.input_arg(fn, init["args"][0]) is not None):
                     self.lost(fn.name, "let initialiser is not `<parser>(input)`")
-                p = self.parser(fn, init["func"])
+                p = self.wrap(self.parser(fn, init["func"]), self.input_arg(fn, init["args"][0]))
                 var = [n for n in names if n != "input"]
                 if "input" not in names:
                     self.lost(fn.name, "a parsing step does not rebind `input`")
@@ -91,8 +115,8 @@ class Extractor:
                         result = (A.path_last(sl["path"]), {fv["member"]["0"]["sym"]: A.path_str(fv["expr"]) for fv in sl["fields"]})
                         continue
                 # steps followed by a final `<parser>(input)`
-                if A.kind(e) == "Expr::Call" and len(e["args"]) == 1 and A.path_str(e["args"][0]) == "input" and st is stmts[-1]:
-                    steps.append((None, self.parser(fn, e["func"]), True))
+                if A.kind(e) == "Expr::Call" and len(e["args"]) == 1 and self.input_arg(fn, e["args"][0]) is not None and st is stmts[-1]:
+                    steps.append((None, self.wrap(self.parser(fn, e["func"]), self.input_arg(fn, e["args"][0])), True))
                     return N("seq", items=[p for _, p, _ in steps])
                 self.lost(fn.name, "unexpected tail expression")
             else:
@@ -193,8 +217,12 @@ class Extractor:
                 return ("xid_start",)
             if nm.endswith("is_xid_continue"):
                 return ("xid_continue",)
+            if nm.endswith("is_ascii_whitespace"):
+                return ("ascii_ws",)
             if nm.endswith("is_whitespace"):
                 return ("ws",)
+            if nm.endswith("is_ascii_digit"):
+                return ("digit",)
             self.lost(fn.name, f"unknown character predicate `{nm}`")
         if A.kind(e) == "Expr::Closure":
             body = e["body"]
@@ -204,6 +232,16 @@ class Extractor:
                 return ("digit",)
             if txt == f"{c}.is_whitespace()":
                 return ("ws",)
+            if txt == f"{c}.is_ascii_whitespace()":
+                return ("ascii_ws",)
+            if txt == f"{c}.is_alphabetic()":
+                return ("alpha",)
+            if txt == f"{c}.is_alphanumeric()":
+                return ("alnum",)
+            if txt == f"{c}.is_ascii_alphabetic()":
+                return ("ascii_alpha",)
+            if txt == f"{c}.is_ascii_alphanumeric()":
+                return ("ascii_alnum",)
             # !matches!(c, 'x' | 'y')
             if A.kind(body) == "Expr::Unary" and A.kind(body["op"]) == "UnOp::Not" and A.kind(body["expr"]) == "Expr::Macro" and A.path_last(body["expr"]["mac"]["path"]) == "matches":
                 chars = [t["lit"]["value"] for t in body["expr"]["mac"]["tokens"] if A.kind(t) == "Literal" and t["lit"].get("kind") == "char"]
@@ -297,6 +335,14 @@ def xid_continue(c):
     return ("a" + c).isidentifier()
 
 
+RUST_WS = set("\t\n\x0b\x0c\r \x85\xa0\u1680\u2028\u2029\u202f\u205f\u3000") | {chr(x) for x in range(0x2000, 0x200B)}
+
+
+def rust_is_whitespace(c):
+    """char::is_whitespace (Unicode White_Space)"""
+    return c in RUST_WS
+
+
 def test_pred(pred, c):
     k = pred[0]
     if k == "xid_start":
@@ -306,7 +352,17 @@ def test_pred(pred, c):
     if k == "digit":
         return c in "0123456789"
     if k == "ws":
-        return c.isspace()
+        return rust_is_whitespace(c)
+    if k == "ascii_ws":
+        return c in " \t\n\x0c\r"
+    if k == "alpha":
+        return c.isalpha()
+    if k == "alnum":
+        return c.isalnum()
+    if k == "ascii_alpha":
+        return c.isascii() and c.isalpha()
+    if k == "ascii_alnum":
+        return c.isascii() and c.isalnum()
     if k == "oneof":
         return c in pred[1]
     if k == "notin":
@@ -347,6 +403,22 @@ class Interp:
             return (i + 1, s[i]) if i < len(s) else None
         if k == "eof":
             return (i, None) if i == len(s) else None
+        if k == "wrap":
+            # `<parser>(input.trim..())`: leading whitespace skipped first; with trim_end the rest loses its trailing
+            # whitespace, i.e. a rest consisting of whitespace only becomes empty
+            j = i
+            for pre in n.pre:
+                r = self.ev(pre, s, j, env)
+                if r is None:
+                    return None
+                j = r[0]
+            r = self.ev(n.p, s, j, env)
+            if r is None:
+                return None
+            j, v = r
+            if n.trim_end and all(rust_is_whitespace(c) for c in s[j:]):
+                j = len(s)
+            return (j, v)
         if k == "ref":
             return self.ev(self.rules[n.name], s, i, {})
         if k == "seq":
